@@ -491,3 +491,37 @@ Qed.
 
 Lemma transcode_is_ledger_text days v : transcode days v = ledger_text v (transcode_entries days []).
 Proof. reflexivity. Qed.
+
+(* ------------------------------------------------------------------ the executable test roundtrip_b *)
+(* what the reader returns equals the erased items as text: the comparison of
+   Spec/BeancountErase.v (amounts through Decimal.String) cannot tell q from reread q *)
+Lemma str_eqb_same s : str_eqb s s = true.
+Proof.
+  unfold str_eqb. assert (E : str_cmp s s = Eq); [|rewrite E; reflexivity].
+  induction s as [|x s IH]; [reflexivity|]. cbn [str_cmp]. rewrite Z.compare_refl. exact IH.
+Qed.
+
+Lemma sposting_eqb_reread x : sposting_eqb (reread_sposting x) x = true.
+Proof.
+  unfold sposting_eqb, reread_sposting, account_of, amount_of, commodity_of. cbn [fst snd].
+  rewrite to_string_reread, !str_eqb_same. reflexivity.
+Qed.
+
+Lemma sentry_eqb_reread e : sentry_eqb (reread_entry e) e = true.
+Proof.
+  destruct e as [d a|d a|d s ps]; cbn [reread_entry sentry_eqb]; rewrite ?Z.eqb_refl, ?str_eqb_same; try reflexivity.
+  cbn [andb]. induction ps as [|x ps IH]; [reflexivity|]. cbn [map list_eqb]. rewrite sposting_eqb_reread, IH. reflexivity.
+Qed.
+
+Lemma list_eqb_reread es : list_eqb sentry_eqb (reread_entries es) es = true.
+Proof.
+  induction es as [|e es IH]; [reflexivity|]. unfold reread_entries. cbn [map list_eqb].
+  fold (reread_entries es). rewrite sentry_eqb_reread, IH. reflexivity.
+Qed.
+
+Theorem roundtrip_b_true v days : commodity_lex_b v = true -> entries_lex_b (transcode_entries days []) = true ->
+  roundtrip_b v days = true.
+Proof.
+  intros Hv Hes. unfold roundtrip_b. rewrite transcode_is_ledger_text, (read_ledger_text v _ Hv Hes).
+  rewrite str_eqb_same, list_eqb_reread. reflexivity.
+Qed.
